@@ -65,7 +65,8 @@ LEAN_KEYWORDS = {"end", "from", "at", "in", "fun", "open", "do", "then", "else",
                  "Type", "Prop", "Sort", "set_option", "local", "prefix", "infix", "notation", "macro", "syntax",
                  "universe", "example", "axiom", "abbrev", "inductive", "calc", "nomatch", "suffices", "obtain", "rec"}
 
-NAT, RAT, EU, TT, BOOL, PROP, PM, PTR, WMC, FF, POLY, UNIT = "nat", "rat", "eu", "T", "bool", "prop", "pm", "ptr", "wmc", "ff", "poly", "unit"
+NAT, RAT, EU, TT, BOOL, PROP, PM, PTR, WMC, FF, POLY, UNIT, CX = "nat", "rat", "eu", "T", "bool", "prop", "pm", "ptr", "wmc", "ff", "poly", "unit", "cx"
+REALT = "real"      # only as `Ctx.self_type`: the Rust type RealSemiring (its values are `Rat`)
 LIT = ("tuple", (NAT, BOOL))
 
 
@@ -84,8 +85,9 @@ def opt(t):
 class V:
     """typed symbolic value: Lean term text, type, and (for the eta peephole) `proj = (base, i, n)`"""
 
-    def __init__(self, s, ty, proj=None, items=None):
-        self.s, self.ty, self.proj, self.items = s, ty, proj, items
+    def __init__(self, s, ty, proj=None, items=None, closure=None, static=False):
+        self.s, self.ty, self.proj, self.items, self.closure = s, ty, proj, items, closure
+        self.static = static      # a fixed-size Rust array `[C; N]` (its length is static in Rust, not in the model's list)
 
 
 def balanced(s):
@@ -115,8 +117,9 @@ def ap(f, *args):
 
 
 class Ctx:
-    def __init__(self, sem=None, ops=None, consts=None, self_v=None, loop_name=None):
+    def __init__(self, sem=None, ops=None, consts=None, self_v=None, loop_name=None, self_type=None):
         self.sem, self.ops = sem, ops
+        self.self_type = self_type      # what `Self` names in an `impl … for ExpectedUtility / Complex / RealSemiring`
         self.consts = consts or {}
         self.self_v = self_v
         self.n = 0
@@ -135,6 +138,8 @@ class Ctx:
             return "Rat"
         if t == EU:
             return "_root_.Sem.EU"
+        if t == CX:
+            return "_root_.Sem.Cx"
         if t == TT:
             return "α"
         if t == BOOL:
@@ -260,12 +265,18 @@ def binop(op, a, b, cx):
             return V("%s %s %s" % (paren(a.s), op, paren(b.s)), t)
         if t == EU:
             return V(ap("_root_.Sem." + {"+": "euAdd", "*": "euMul", "-": "euSub"}[op], a.s, b.s), EU)
+        if t == CX:
+            return V(ap("_root_.Sem." + {"+": "cxAdd", "*": "cxMul", "-": "cxSub"}[op], a.s, b.s), CX)
         if t == TT and cx.ops and op in ("+", "*"):
             return V(ap(cx.ops + (".add" if op == "+" else ".mul"), a.s, b.s), TT)
         raise Untranslatable("operator %s on %r" % (op, t))
-    if op in ("%", "/", "&", ">>", "<<"):
+    if op in ("%", "/", "&", ">>", "<<", "|", "^"):
         if t != NAT:
             raise Untranslatable("operator %s on %r" % (op, t))
+        if op == "<<" and cx.loop_name is not None:               # u128 `<<` drops the bits shifted out
+            return V("(%s <<< %s) %% 2 ^ 128" % (paren(a.s), paren(b.s)), NAT)
+        if op in ("|", "^"):
+            return V("%s %s %s" % (paren(a.s), {"|": "|||", "^": "^^^"}[op], paren(b.s)), NAT)
         return V("%s %s %s" % (paren(a.s), {"%": "%", "/": "/", "&": "&&&", ">>": ">>>", "<<": "<<<"}[op], paren(b.s)), NAT)
     if op in ("==", "!="):
         if t == TT:
@@ -273,7 +284,7 @@ def binop(op, a, b, cx):
                 raise Untranslatable("== on the generic weight type")
             e = ap("B.beq", a.s, b.s)
             return V(e if op == "==" else "!" + paren(e), BOOL)
-        if t in (NAT, RAT, EU, PM, BOOL) or isinstance(t, tuple):
+        if t in (NAT, RAT, EU, CX, PM, BOOL) or isinstance(t, tuple):
             return V("%s %s %s" % (paren(a.s), "=" if op == "==" else "≠", paren(b.s)), PROP)
         raise Untranslatable("== on %r" % (t,))
     if op in ("<", "<=", ">", ">="):
@@ -283,8 +294,12 @@ def binop(op, a, b, cx):
     raise Untranslatable("operator " + op)
 
 
-def closure_of(e, n):
+def closure_of(e, n, env=None):
+    """the closure AST of an argument: a literal closure, or a local bound to one (its body then sees
+    the environment of its definition: captured locals are immutable in the accepted grammar)"""
     e = strip_ref(e)
+    if e[0] == "var" and env is not None and e[1] in env and env[e[1]].closure is not None:
+        e = env[e[1]].closure[0]
     if e[0] != "closure" or len(e[1]) != n:
         raise Untranslatable("expected a closure with %d parameters" % n)
     return e
@@ -305,6 +320,14 @@ def bind_pattern(pat, v, env, cx):
         for i, p in enumerate(pat[1]):
             bind_pattern(p, proj(v, i), env, cx)
         return
+    if k == "pstruct" and pat[1] in (["Complex"], ["Self"]) and v.ty == CX:
+        for f, sub in pat[2]:
+            if f not in ("re", "im"):
+                raise Untranslatable("field %s of Complex" % f)
+            bind_pattern(sub, V(paren(v.s) + "." + f, RAT), env, cx)
+        return
+    if k == "pctor" and pat[1] == ["Self"] and cx.self_type in (EU, REALT):
+        return bind_pattern(("pctor", ["ExpectedUtility" if cx.self_type == EU else "RealSemiring"], pat[2]), v, env, cx)
     if k == "pctor" and pat[1] == ["RealSemiring"] and len(pat[2]) == 1 and v.ty == RAT:
         return bind_pattern(pat[2][0], v, env, cx)
     if k == "pctor" and pat[1] == ["ExpectedUtility"] and len(pat[2]) == 2 and v.ty == EU:
@@ -389,7 +412,7 @@ def ev(e, env, cx):
         c, n = ev(e[1], env, cx), ev(e[2], env, cx)
         if n.ty != NAT:
             raise Untranslatable("array length")
-        return V(ap("List.replicate", n.s, c.s), lst(c.ty))
+        return V(ap("List.replicate", n.s, c.s), lst(c.ty), static=True)
     if k == "field":
         return field(ev(e[1], env, cx), e[2], cx)
     if k == "index":
@@ -415,6 +438,8 @@ def ev(e, env, cx):
         if e[4] is None:
             raise Untranslatable("if let without else in expression position")
         return ev_match(("match", e[2], [(e[1], None, e[3]), (("pwild",), None, e[4])]), env, cx)
+    if k == "closure":
+        return V("<closure>", "closure", closure=(e, dict(env)))
     if k == "call":
         return ev_call(e, env, cx)
     if k == "mcall":
@@ -432,10 +457,12 @@ def field(a, name, cx):
         return a
     if t == EU and name in ("0", "1"):
         return V(paren(a.s) + (".p" if name == "0" else ".u"), RAT)
+    if t == CX and name in ("re", "im"):
+        return V(paren(a.s) + "." + name, RAT)
     if t == FF and name == "v":
         return V(a.s, NAT)
     if t == POLY and name == "coefficients":
-        return V(paren(a.s) + ".coeffs", lst(TT))
+        return V(paren(a.s) + ".coeffs", lst(TT), static=True)
     if t == POLY and name == "len":
         return V(paren(a.s) + ".len", NAT)
     if t == WMC and name == "zero":
@@ -456,6 +483,13 @@ def ev_struct(e, env, cx):
         if v.ty != NAT:
             raise Untranslatable("FiniteField literal value")
         return V(v.s, FF)
+    if (e[1] == "Complex" or (e[1] == "Self" and cx.self_type == CX)):
+        if set(fs) != {"re", "im"}:
+            raise Untranslatable("Complex literal fields")
+        a, b = ev(fs["re"], env, cx), ev(fs["im"], env, cx)
+        if a.ty != RAT or b.ty != RAT:
+            raise Untranslatable("Complex literal components")
+        return V(ap("_root_.Sem.Cx.mk", a.s, b.s), CX)
     if e[1] in ("Polynomial", "Self") and cx.self_v is not None and cx.self_v.ty == POLY or (e[1] == "Polynomial" and cx.ops == "S"):
         if set(fs) != {"coefficients", "len"}:
             raise Untranslatable("Polynomial literal fields")
@@ -472,6 +506,23 @@ def ev_call(e, env, cx):
     if path is None:
         raise Untranslatable("call of a computed function")
     av = lambda i: ev(args[i], env, cx)  # noqa: E731
+    if len(path) == 1 and path[0] in env and env[path[0]].closure is not None:
+        cl, cenv = env[path[0]].closure
+        if len(cl[1]) != len(args):
+            raise Untranslatable("arity of the closure " + path[0])
+        sub = dict(cenv)
+        for pat, i in zip(cl[1], range(len(args))):
+            bind_pattern(pat, to_bool(av(i)), sub, cx)
+        return ev(cl[2], sub, cx)
+    if path == ["Self"] and cx.self_type in (EU, REALT):
+        path = ["ExpectedUtility"] if cx.self_type == EU else ["RealSemiring"]
+    if len(path) == 2 and path[1] in ("zero", "one") and not args:
+        tname = {EU: "ExpectedUtility", CX: "Complex", REALT: "RealSemiring"}.get(cx.self_type) if path[0] == "Self" else path[0]
+        consts = {"ExpectedUtility": ("_root_.Sem.euZero", "_root_.Sem.euOne", EU), "Complex": ("_root_.Sem.cxZero", "_root_.Sem.cxOne", CX),
+                  "RealSemiring": ("(0 : Rat)", "(1 : Rat)", RAT)}
+        if tname in consts:
+            z, o, ty = consts[tname]
+            return V(z if path[1] == "zero" else o, ty)
     if path == ["Some"] and len(args) == 1:
         a = to_bool(av(0))
         return V(ap("some", a.s), opt(a.ty))
@@ -569,8 +620,8 @@ def ev_mcall(e, env, cx):
             lo, hi = av(1), av(2)
             if not same_ty(lo.ty, hi.ty) or lo.ty not in (RAT, EU, TT, BOOL, NAT):
                 raise Untranslatable("bdd_fold accumulator type %r" % (lo.ty,))
-            cl = closure_of(args[0], 3)
-            f, body = lam(cx, env, [(cl[1][0], NAT), (cl[1][1], lo.ty), (cl[1][2], lo.ty)], lambda sub: ev(cl[2], sub, cx))
+            cl = closure_of(args[0], 3, env)
+            f, body = lam(cx, env, [(cl[1][0], NAT), (cl[1][1], lo.ty), (cl[1][2], lo.ty)], lambda sub: to_bool(ev(cl[2], sub, cx)))
             if not same_ty(body.ty, lo.ty):
                 raise Untranslatable("bdd_fold closure returns %r" % (body.ty,))
             return V(ap("_root_.Optim.bddFold", f, lo.s, hi.s, r.s, "false"), lo.ty)
@@ -644,7 +695,70 @@ def ev_mcall(e, env, cx):
         if b.ty != TT:
             raise Untranslatable("argument of ." + name)
         return V(ap("B." + name, r.s, b.s), BOOL if name == "le" else TT)
+    if r.static and name not in ("iter", "into_iter", "copied", "cloned"):
+        # `.len()`, `.zip`, `.enumerate`, `.iter_mut` … of `[C; MAX_COEFFS]` depend on the static length, which the
+        # model's `List` does not carry (the equality with the model would need well-formedness): outside the grammar
+        raise Untranslatable("method .%s of a fixed-size array (only indexing is translated)" % name)
+    # ---- options
+    if isinstance(t, tuple) and t[0] == "opt" and t[1] is not None:
+        if name == "map" and len(args) == 1:
+            cl = closure_of(args[0], 1, env)
+            f, body = lam(cx, env, [(cl[1][0], t[1])], lambda sub: to_bool(ev(cl[2], sub, cx)))
+            return V(ap("Option.map", f, r.s), opt(body.ty))
+        if name == "and_then" and len(args) == 1:
+            cl = closure_of(args[0], 1, env)
+            f, body = lam(cx, env, [(cl[1][0], t[1])], lambda sub: ev(cl[2], sub, cx))
+            if not (isinstance(body.ty, tuple) and body.ty[0] == "opt"):
+                raise Untranslatable("and_then closure result")
+            return V(ap("Option.bind", r.s, f), body.ty)
+        if name == "unwrap_or" and len(args) == 1:
+            d = to_bool(av(0))
+            if not same_ty(d.ty, t[1]):
+                raise Untranslatable("unwrap_or default")
+            return V(ap("Option.getD", r.s, d.s), t[1])
+        if name == "map_or" and len(args) == 2:
+            d = to_bool(av(0))
+            cl = closure_of(args[1], 1, env)
+            f, body = lam(cx, env, [(cl[1][0], t[1])], lambda sub: to_bool(ev(cl[2], sub, cx)))
+            if not same_ty(d.ty, body.ty):
+                raise Untranslatable("map_or default")
+            return V(ap("Option.getD", ap("Option.map", f, r.s), d.s), body.ty)
+        if name in ("is_some", "is_none") and not args:
+            return V(ap("Option.isSome" if name == "is_some" else "Option.isNone", r.s), BOOL)
+        raise Untranslatable("method .%s of an Option" % name)
     # ---- lists / iterators
+    if isinstance(t, tuple) and t[0] == "list" and t[1] is not None and name in ("filter", "partition", "any", "all", "position") and len(args) == 1:
+        cl = closure_of(args[0], 1, env)
+        f, body = lam(cx, env, [(cl[1][0], t[1])], lambda sub: to_bool(ev(cl[2], sub, cx)))
+        if body.ty != BOOL:
+            raise Untranslatable("predicate of .%s" % name)
+        if name == "filter":
+            return V(ap("List.filter", f, r.s), t)
+        if name == "partition":
+            return V(ap("List.partition", f, r.s), tup(t, t))
+        if name == "position":
+            return V(ap("List.findIdx?", f, r.s), opt(NAT))
+        return V(ap("List.any" if name == "any" else "List.all", r.s, f), BOOL)
+    if isinstance(t, tuple) and t[0] == "list" and t[1] is not None:
+        if name == "rev" and not args:
+            return V(ap("List.reverse", r.s), t)
+        if name == "skip" and len(args) == 1:
+            n = av(0)
+            if n.ty != NAT:
+                raise Untranslatable("skip argument")
+            return V(ap("List.drop", n.s, r.s), t)
+        if name == "zip" and len(args) == 1:
+            o = av(0)
+            if not (isinstance(o.ty, tuple) and o.ty[0] == "list" and o.ty[1] is not None):
+                raise Untranslatable("zip argument")
+            return V(ap("List.zip", r.s, o.s), lst(tup(t[1], o.ty[1])))
+        if name == "enumerate" and not args:
+            return V(ap("List.zip", ap("List.range", ap("List.length", r.s)), r.s), lst(tup(NAT, t[1])))
+        if name == "sum" and not args and t[1] in (NAT, RAT, EU, TT):
+            acc, x = cx.fresh("acc"), cx.fresh("x")
+            body = binop("+", V(acc, t[1]), V(x, t[1]), cx)
+            return V(ap("List.foldl", "fun (%s : %s) (%s : %s) => %s" % (acc, cx.lean_ty(t[1]), x, cx.lean_ty(t[1]), body.s),
+                        cx.zero(t[1]).s, r.s), t[1])
     if isinstance(t, tuple) and t[0] == "list":
         if name in ("iter", "into_iter", "collect", "copied", "cloned", "to_vec") and not args:
             return r
@@ -661,14 +775,14 @@ def ev_mcall(e, env, cx):
                 raise Untranslatable("take argument")
             return V(ap("List.take", n.s, r.s), t)
         if name == "map" and len(args) == 1 and t[1] is not None:
-            cl = closure_of(args[0], 1)
+            cl = closure_of(args[0], 1, env)
             f, body = lam(cx, env, [(cl[1][0], t[1])], lambda sub: to_bool(ev(cl[2], sub, cx)))
             if re.match(r"^fun \((\w+) : [^)]*\) => \1$", f):      # `.map(|x| x.value_usize())`: the identity map
                 return r
             return V(ap("List.map", f, r.s), lst(body.ty))
         if name == "fold" and len(args) == 2 and t[1] is not None:
             init = to_bool(av(0))
-            cl = closure_of(args[1], 2)
+            cl = closure_of(args[1], 2, env)
             f, body = lam(cx, env, [(cl[1][0], init.ty), (cl[1][1], t[1])], lambda sub: to_bool(ev(cl[2], sub, cx)))
             if not same_ty(body.ty, init.ty):
                 raise Untranslatable("fold closure returns %r" % (body.ty,))
@@ -1197,44 +1311,121 @@ def note(rust, e):
     return "-- TRANSLATOR ROUTE NOT AVAILABLE for %s: %s\n" % (rust, str(e).replace("\n", " "))
 
 
+# ------------------------------------------------------------------ Add / Mul / Sub of the f64 weight types
+SEM_TYPES = {
+    # Rust type -> (file, type tag of `self`, Lean carrier, prefix of the model names)
+    "ExpectedUtility": ("src/util/semirings/expectation.rs", EU, EU, "eu"),
+    "Complex": ("src/util/semirings/complex.rs", CX, CX, "cx"),
+    "RealSemiring": ("src/util/semirings/realsemiring.rs", REALT, RAT, "real"),
+}
+
+
+def translate_sem_op(src, tname, op):
+    _, self_type, carrier, pre = SEM_TYPES[tname]
+    trait = {"add": "Add", "mul": "Mul", "sub": "Sub"}[op]
+    ps, body = find_fn(src, op, r"impl\s+(?:ops::)?%s\s*(?:<\s*%s\s*>)?\s+for\s+%s\s*\{" % (trait, tname, tname))
+    params = parse_params_typed(ps)
+    if len(params) != 2 or params[0][0] != "self" or params[1][1] not in ("Self", tname):
+        raise Untranslatable("signature of " + op)
+    cx = Ctx(self_v=V("a", carrier), self_type=self_type)
+    env = {params[1][0]: V("b", carrier)}
+    ast = parse_body(body)
+    val = eval_block(ast[1], ast[2], env, cx)
+    if val.ty != carrier:
+        raise Untranslatable("result type %r" % (val.ty,))
+    ty = cx.lean_ty(carrier)
+    return "def %s%s (a b : %s) : %s :=\n  %s\n" % (pre, trait, ty, ty, val.s)
+
+
+# ------------------------------------------------------------------ assembling, elaboration guard
+def elaborate(text):
+    """elaborate a candidate text once; returns the set of 1-based error lines, or None when lean could not be run"""
+    import subprocess, tempfile
+    lean_dir = os.path.join(ROOT, "lean")
+    try:
+        fd, path = tempfile.mkstemp(prefix="GenOptimCandidate", suffix=".lean", dir=lean_dir)
+        with os.fdopen(fd, "w") as f:
+            f.write(text)
+        try:
+            r = subprocess.run(["lake", "env", "lean", path], cwd=lean_dir, capture_output=True, text=True, timeout=600)
+        finally:
+            os.unlink(path)
+    except Exception:
+        return None
+    out = r.stdout + r.stderr
+    lines = set(int(m.group(1)) for m in re.finditer(r"GenOptimCandidate[^:\s]*\.lean:(\d+):\d+: error", out))
+    if r.returncode != 0 and not lines:
+        return None          # lean failed for a reason that is not an error in the text (missing oleans, …): cannot check
+    return lines
+
+
+def render(chunks):
+    """chunks: [(key or None, text)] -> text, {key: (first line, last line)}"""
+    out, spans, line = [], {}, 1
+    for key, text in chunks:
+        n = text.count("\n") + 1          # the chunk plus the joining newline
+        if key is not None:
+            spans[key] = (line, line + n - 1)
+        out.append(text)
+        line += n
+    return "\n".join(out), spans
+
+
 def main():
     status = {}
-    out = [HEADER, "namespace Gen.Optim\n"]
-    src, err = read("src/repr/bdd.rs")
-    for rust in BDD_FUNS:
-        key = "BddPtr::" + rust
+    alias = {}
+    chunks = [(None, HEADER), (None, "namespace Gen.Optim\n")]
+
+    def attempt(key, label, fn, alias_text, ok="translated"):
+        alias[key] = alias_text
         try:
-            if src is None:
-                raise Untranslatable(err)
-            out.append(translate_bdd_fn(src, rust))
-            status[key] = "translated"
+            chunks.append((key, fn()))
+            status[key] = ok
         except CAUGHT as e:
-            out.append(note(rust, e) + "abbrev %s := @_root_.Optim.%s\n" % (MODEL_OF[rust], MODEL_OF[rust]))
+            chunks.append((key, note(label, e) + alias_text))
             status[key] = UNTR % (str(e) or type(e).__name__)
-    out.append("end Gen.Optim\n\nnamespace Gen.OptimSem\n")
-    src, err = read("src/util/semirings/finitefield.rs")
-    try:
+
+    def need(src, err):
         if src is None:
             raise Untranslatable(err)
-        out.append(translate_ff_mul(src))
-        status["FiniteField::mul"] = "translated (with its while loop)"
-    except CAUGHT as e:
-        out.append(note("FiniteField::mul", e) +
-                   FF_LOOP_ALIAS + "abbrev ffMul := @_root_.Sem.ffMul\n")
-        status["FiniteField::mul"] = UNTR % (str(e) or type(e).__name__)
-    src, err = read(POLY_FILE)
+        return src
+
+    src, err = read("src/repr/bdd.rs")
+    for rust in BDD_FUNS:
+        attempt("BddPtr::" + rust, rust, lambda rust=rust: translate_bdd_fn(need(src, err), rust),
+                "abbrev %s := @_root_.Optim.%s\n" % (MODEL_OF[rust], MODEL_OF[rust]))
+    chunks.append((None, "end Gen.Optim\n\nnamespace Gen.OptimSem\n"))
+    fsrc, ferr = read("src/util/semirings/finitefield.rs")
+    attempt("FiniteField::mul", "FiniteField::mul", lambda: translate_ff_mul(need(fsrc, ferr)),
+            FF_LOOP_ALIAS + "abbrev ffMul := @_root_.Sem.ffMul\n", ok="translated (with its loop)")
+    psrc, perr = read(POLY_FILE)
     for rust, lean in (("zero", "polyZero"), ("one", "polyOne"), ("add", "polyAdd"), ("mul", "polyMul")):
-        key = "Polynomial::" + rust
-        try:
-            if src is None:
-                raise Untranslatable(err)
-            out.append(translate_poly(src, rust))
-            status[key] = "translated"
-        except CAUGHT as e:
-            out.append(note(key, e) + "abbrev %s := @_root_.Sem.%s\n" % (lean, lean))
-            status[key] = UNTR % (str(e) or type(e).__name__)
-    out.append("end Gen.OptimSem\n")
-    write_if_changed(OUT, "\n".join(out))
+        attempt("Polynomial::" + rust, "Polynomial::" + rust, lambda rust=rust: translate_poly(need(psrc, perr), rust),
+                "abbrev %s := @_root_.Sem.%s\n" % (lean, lean))
+    for tname, (path, _, _, pre) in SEM_TYPES.items():
+        ssrc, serr = read(path)
+        for op in ("add", "mul", "sub"):
+            lean = pre + op.capitalize()
+            attempt("%s::%s" % (tname, op), "%s::%s" % (tname, op),
+                    lambda ssrc=ssrc, serr=serr, tname=tname, op=op: translate_sem_op(need(ssrc, serr), tname, op),
+                    "abbrev %s := @_root_.Sem.%s\n" % (lean, lean))
+    chunks.append((None, "end Gen.OptimSem\n"))
+    text, spans = render(chunks)
+    old = open(OUT).read() if os.path.exists(OUT) else None
+    if text != old:
+        # elaboration guard: a generated definition that does not elaborate falls back to its alias
+        for _ in range(4):
+            errs = elaborate(text)
+            if not errs:
+                break
+            bad = [k for k, (a, b) in spans.items() if any(a <= l <= b for l in errs) and not status[k].startswith("UNTRANSLATED")]
+            if not bad:
+                break
+            for k in bad:
+                status[k] = UNTR % "the translation does not elaborate"
+            chunks = [(k, (note(k, "the translation does not elaborate") + alias[k]) if k in bad else t) for k, t in chunks]
+            text, spans = render(chunks)
+    write_if_changed(OUT, text)
     return status
 
 
